@@ -58,6 +58,7 @@ from .common import (cfg_of, fkey, conds, has_cond, cond_texts, stmts_of, walk_b
                      returns_of, handler_reraises_always, stmt_of)
 from ..astutil import assigned_value
 from .c15 import next_derived, is_next_call, _guarded
+from .c15_paths import module_sentinels
 
 STATS = 'clastic.middleware.stats'
 
@@ -219,6 +220,36 @@ def _request_records_once(rep, repo, st):
                 e = e.values[0].value
             else:
                 return e
+    sentinels = module_sentinels(repo, st)
+    split_kinds = set()
+
+    def _pieces(e, cs):
+        """[(value, conditions)]: the alternatives of a conditional expression, each with the outcome of its test"""
+        e = _rendered(e)
+        if isinstance(e, ast.IfExp):
+            return _pieces(e.body, cs + [(e.test, True)]) + _pieces(e.orelse, cs + [(e.test, False)])
+        return [(e, cs)]
+
+    def _code_lookup(e, v):
+        """``v.code`` / ``getattr(v, 'code', <sentinel of the module>)``: the code, where there is one"""
+        if isinstance(e, ast.Attribute) and e.attr == 'code' and norm(e.value) == v:
+            return True
+        return isinstance(e, ast.Call) and call_name(e) == 'getattr' and len(e.args) == 3 and not e.keywords and norm(e.args[0]) == v and \
+            isinstance(e.args[1], ast.Constant) and e.args[1].value == 'code' and isinstance(e.args[2], ast.Name) and e.args[2].id in sentinels
+
+    def _has_code(cs, v):
+        """what the conditions say about ``v`` having a code: True / False / None"""
+        for t, p in cs:
+            if isinstance(t, ast.Call) and call_name(t) == 'hasattr' and len(t.args) == 2 and norm(t.args[0]) == v and \
+                    isinstance(t.args[1], ast.Constant) and t.args[1].value == 'code':
+                return p
+            if isinstance(t, ast.Compare) and len(t.ops) == 1 and isinstance(t.ops[0], (ast.Is, ast.IsNot)):
+                a, b = t.left, t.comparators[0]
+                if isinstance(a, ast.Name) and a.id in sentinels:
+                    a, b = b, a
+                if isinstance(b, ast.Name) and b.id in sentinels and _code_lookup(a, v) and isinstance(a, ast.Call) and a.args[2].id == b.id:
+                    return p is isinstance(t.ops[0], ast.IsNot)
+        return None
     for s in sv_assigns:
         hs = [p for p in _ancestors(st, s) if isinstance(p, ast.ExceptHandler)]
         val = Lq.resolve(s.value, s)
@@ -228,11 +259,24 @@ def _request_records_once(rep, repo, st):
                 exc_ok = True
                 if not (isinstance(core, ast.Call) and call_name(core) == 'getattr'):
                     computed.append(s)
+            elif hs[0].name:
+                # the same decision spelt as a test: the code where the exception has one (``hasattr`` / a sentinel lookup that did
+                # not come back with the sentinel), its class name where it has none
+                for piece, cs in _pieces(val, Lq.conds(conds(rq, s), st)):
+                    has = _has_code(cs, hs[0].name)
+                    if _code_lookup(piece, hs[0].name) and has is True:
+                        split_kinds.add('code')
+                    elif _class_name_of(piece, hs[0].name) and has is False:
+                        split_kinds.add('name')
+                    else:
+                        split_kinds.add('other')
         elif any(_lenient(val, v, 'status_code', True) or
                  any(isinstance(n, ast.Attribute) and n.attr == 'status_code' and norm(n.value) == v for n in ast.walk(val)) for v in nd):
             body_ok = True
             if not ((isinstance(core, ast.Call) and call_name(core) == 'getattr') or (isinstance(core, ast.Attribute) and core.attr == 'status_code')):
                 computed.append(s)
+    if not exc_ok and split_kinds == {'code', 'name'}:
+        exc_ok = True
     if computed:
         # the key is a function of the code, not the code: several codes would be counted under one key
         body_ok = body_ok and not any(not [p for p in _ancestors(st, s) if isinstance(p, ast.ExceptHandler)] for s in computed)
@@ -1675,19 +1719,19 @@ def _type_of(repo, fi, expr, anchor, depth=0, look=True):
 
 
 def _param_type(repo, fi, name, depth):
-    """what every call site of ``fi`` (calls by plain name / method calls on an object of known class, in the module of ``fi``)
-    passes for parameter ``name``"""
+    """what every call site of ``fi`` (calls by plain name / method calls on an object of known class, anywhere in the analysed tree:
+    the function may be imported by the module that uses it) passes for parameter ``name``"""
     if depth > 8:
         return None
     ps = fi.params()
     sn = _self_name(fi)
     pos = ps.index(name) - (1 if sn else 0)
     found = []
-    for other in fi.mod.functions.values():
+    for other in [f for m in repo.all_internal_modules() for f in m.functions.values() if f.mod is m]:
         for c in walk_body(other.node):
             if not isinstance(c, ast.Call) or call_tail(c) != fi.name:
                 continue
-            anchor = stmt_of(fi.mod, c)
+            anchor = stmt_of(other.mod, c)
             callee, _recv = _resolve_call(repo, other, c, anchor, depth + 1)
             if callee is not fi:
                 if callee is None and isinstance(c.func, ast.Attribute):
